@@ -189,6 +189,57 @@ func C15(c *fw.Ctx) {
 			}
 		}
 	}
+	// ---- numbers that come out of the integer operators (wide ones that no double holds exactly among
+	// them): the splice on either side of + and inside containers is what দেখাও prints
+	{
+		num := model.Num
+		sh := func(a, b float64) *model.N { return model.Grp(model.Bin("<<", num(a), num(b))) }
+		exprs := []func() *model.N{
+			func() *model.N { return model.Grp(model.Bin("|", sh(1, 53), num(1))) },
+			func() *model.N { return model.Un("~", sh(1, 53)) },
+			func() *model.N { return model.Grp(model.Bin("^", sh(1, 62), num(3))) },
+			func() *model.N { return sh(1, 62) },
+			func() *model.N { return model.Grp(model.Bin("|", sh(1, 62), num(1))) },
+			func() *model.N {
+				return model.Grp(model.Bin("&", model.Un("~", num(0)), model.Grp(model.Bin("|", sh(1, 60), num(5)))))
+			},
+			func() *model.N { return model.Grp(model.Bin(">>", model.Un("~", num(0)), num(1))) },
+			func() *model.N { return model.Un("~", num(0)) },
+			func() *model.N { return model.Grp(model.Bin("&", num(7), num(3))) },
+			func() *model.N { return model.Grp(model.Bin("|", sh(1, 31), sh(1, 32))) },
+			func() *model.N { return sh(3, 61) },
+			func() *model.N { return model.Grp(model.Bin("^", model.Un("~", num(0)), sh(1, 54))) },
+		}
+		for _, e := range exprs {
+			if !c.Mine() {
+				continue
+			}
+			alone := model.Render(parenAll([]*model.N{model.Print(e())}))
+			o, ok := runSrc(alone)
+			if !ok || o.Status != 0 {
+				continue
+			}
+			text := strings.TrimSuffix(o.Stdout, "\n")
+			for name, pr := range map[string]*model.N{
+				"left-of-text":     model.Print(model.Bin("+", e(), model.Str(""))),
+				"right-of-text":    model.Print(model.Bin("+", model.Str(""), e())),
+				"left-of-bar":      model.Print(model.Bin("+", e(), model.Str("|"))),
+				"between":          model.Print(model.Bin("+", model.Bin("+", model.Str("<"), e()), model.Str(">"))),
+				"through-variable": model.Print(model.Bin("+", model.CallN("idw", e()), model.Str(""))),
+			} {
+				src := model.Render(parenAll([]*model.N{model.Fun("idw", []string{"x"}, model.Return(model.Id("x"))), pr}))
+				oc, ok := runSrc(src)
+				if !ok {
+					continue
+				}
+				want := map[string]string{"left-of-text": text, "right-of-text": text, "left-of-bar": text + "|", "between": "<" + text + ">", "through-variable": text}[name] + "\n"
+				if oc.Stdout != want || oc.Status != 0 {
+					fail(src, oc, "integer-operator-result-"+name, fmt.Sprintf("%q", want), fmt.Sprintf("%q status %d", oc.Stdout, oc.Status))
+				}
+			}
+			judge(c, []*model.N{model.Print(e()), model.Print(model.Arr(e())), model.Print(model.Bin("==", e(), e()))}, judgeOpts{SigPrefix: "integer-operator-result"})
+		}
+	}
 	// ---- nil, booleans
 	if c.Mine() {
 		for _, kv := range [][2]string{{"nil", "nil"}, {model.KwTrue, "true"}, {model.KwFalse, "false"}} {
